@@ -745,6 +745,14 @@ impl<Writer: Write> Mp4Writer<Writer> {
                 "MP4 MDAT box size exceeds u32::MAX",
             ));
         }
+        // Every chunk offset lies inside ftyp + mdat: make sure they all fit the 32-bit stco field
+        // (the fast-start layout checks each offset; here one check up front suffices)
+        if ftyp_len as u64 + mdat_size > u32::MAX as u64 {
+            return Err(io::Error::new(
+                io::ErrorKind::InvalidData,
+                "MP4 chunk offset exceeds u32::MAX",
+            ));
+        }
         Self::write_counted(
             &mut self.writer,
             &mut self.bytes_written,
